@@ -18,36 +18,52 @@
       σ of the unknowns, whatever `partial` returns for `e` is correct: a literal is the value of `e` (up to completing unknowns
       it merely contains — only `.`/`has` look inside such a value), a residual agrees with `e` (same value, or both
       fail), an error means `e` fails under every completion.
-    * `C06_partial_keep_sound_partial` — policy level: if the policy is kept, the residual policy is satisfied under the
+    * `C06_no_ignore_met` — the INVARIANT that turns the premise of the policy-level clauses into a statement about the
+      INPUTS: in an environment without ignore markers (`noIgnoreInput`: principal, action, resource, context at any depth,
+      and the attributes / tags of the store) an expression without an ignore marker in its literals (`Expr.noIgnoreLits`)
+      is never answered with `errIgnore`, and its residual is again such an expression with distinct record keys
+      (evaluation creates no entity that was not in the inputs: `eval_clean`, Lemmas/C06Inv.lean).
+    * `C06_partial_keep_sound` — policy level, FULL: if the policy is kept, the residual policy is satisfied under the
       completed environment exactly when the original is.
-    * `C06_partial_drop_sound_partial` — policy level: if the policy is dropped, the original is not satisfied under any
+    * `C06_partial_drop_sound` — policy level, FULL: if the policy is dropped, the original is not satisfied under any
       completion.
-      Both for EVERY policy; the only hypothesis left is the property's own premise that the environment has unknowns, not
-      ignore markers (`partialDomain`: no request part is ignored and no condition's partial evaluation reports
-      `errIgnore`, i.e. no ignore marker nested in the context / an entity is met).  They keep the `_partial` suffix
-      because agreement of *error-ness* at policy level (residual erroring ⇔ original erroring) is not carried through
-      `PartialPolicy` (it holds at expression level: `C06_partialE_sound`; the property text only demands satisfaction),
-      and because the premise is expressed through `partialE` (decidable, evaluated by the driver per case) rather than
-      as "no ignore marker occurs anywhere in the inputs".
-    * `C06_partial_ignore_widens_partial` — ignored request parts, EVERY permit policy (record keys distinct): if it is satisfied for some value
-      of the ignored parts it is kept and its residual is satisfied (ignoring only widens).
-    * `C06_former_counterexamples_sound` — the five former counterexample inputs now satisfy the property, and
-      `C06_domain_nonvacuous` — policies that genuinely use unknowns are kept with non-trivial residuals.
-  NOTE on `Expr.recKeysDistinct` (hypothesis of the expression-level theorem and of the ignore theorem, a conjunct of
-  `partialDomain`).  The shared model evaluates a record literal the way the repaired `recordLiteralEval` does: `ToEval`
-  stores the entries in a map (a later duplicate key REPLACES the earlier entry, which is never evaluated), the keys are
-  visited in ascending order.  `partial` visits EVERY element of `NodeTypeRecord.Elements`, also one that `ToEval` drops,
-  so for a hand-written node that repeats a key (`{a: 1 + "x", a: 2}` — the text parser rejects it, the JSON decoder and
-  `ast.Record` cannot produce it) `partial` reports the error of an entry that `Eval` never looks at.  The statements are
-  therefore about expressions in which every record literal lists a key once.
-  NOT PROVED
-    * agreement of error-ness at policy level (see above).
-    * independence of the residual from the ignored parts (the residual is evaluated under the same value of the
-      ignored part in `C06_partial_ignore_widens_partial`); the direct oracle evaluates it under the batch placeholder too.
+    * `C06_partial_keep_errors_agree` — a STRENGTHENING the property text does not ask for: kept ⇒ the residual fails
+      under the completed environment exactly when the original fails (together with the previous: the residual and the
+      original evaluate to the same boolean, or both fail — `partialPolicy_tv`).
+      All three for EVERY policy, store, partial environment and completion; the hypotheses are structural and decidable
+      on the inputs: `noIgnoreInput envHat` (the property's own premise for these clauses: unknowns, not ignored parts),
+      `Policy.noIgnoreLits` and `Policy.recKeysDistinct`.  (The model-level form — `partialDomain`: "no ignore marker is
+      met" — is `partialPolicy_sound` / `partialPolicy_tv` in Lemmas; `C06_partialDomain_of_inputs` derives it.)
+    * `C06_partial_residual_reusable` — the residual policy satisfies the same structural premises (what batch needs to
+      partially evaluate it again at the next level).
+    * `C06_partial_ignore_residual_independent` — ignored request parts: the residual of a kept policy evaluates alike
+      (same boolean, or both fail) whatever values the ignored parts are given.  Semantic, not syntactic: the residual may
+      still mention an ignored part in code that is never reached (example below).
+    * `C06_partial_ignore_widens` — FULL: for a permit policy, if the original is satisfied for AT LEAST ONE value of the
+      ignored parts then the policy is kept and its residual is satisfied for EVERY value of the ignored parts (in
+      particular for the placeholder `__cedar::unknown` batch uses).  Ignore markers may occur anywhere.
+    * `C06_former_counterexamples_sound` — the former counterexample inputs satisfy the input-level premises and hence
+      the property, and `C06_domain_nonvacuous` — policies that genuinely use unknowns are kept with non-trivial residuals.
+  NOTE on `Expr.recKeysDistinct` (hypothesis of every clause).  The shared model evaluates a record literal the way the
+  repaired `recordLiteralEval` does: `ToEval` stores the entries in a map (a later duplicate key REPLACES the earlier entry,
+  which is never evaluated), the keys are visited in ascending order.  `partial` visits EVERY element of
+  `NodeTypeRecord.Elements`, also one that `ToEval` drops, so for a hand-written node that repeats a key
+  (`{a: 1 + "x", a: 2}` — the text parser rejects it, the JSON decoder and `ast.Record` cannot produce it) `partial` reports
+  the error of an entry that `Eval` never looks at.  The statements are therefore about expressions in which every record
+  literal lists a key once.
+  NOTE on `Expr.noIgnoreLits` (hypothesis of keep / drop / errors-agree).  The ignore marker is an ordinary entity value,
+  `__cedar::ignore::""`; a policy that SPELLS it as a literal is treated by `partial` as if the request part had been
+  ignored (`ignLitPolicy` below: `{a: __cedar::ignore::""}.a == 1` is dropped from a permit policy as "ignored" although
+  it is plainly false).  `__cedar` is Cedar's reserved namespace; the clauses are about policies that do not use it so.
+  NOT PROVED: nothing of the property text is left at model level.  Error KINDS / messages are not compared (the
+  residual carries `__cedar::partialError` where the original has a type error, etc.).
 -/
 import CedarGo.Model.Partial
 import CedarGoProofs.Lemmas.C06
 import CedarGoProofs.Lemmas.C06Policy
+import CedarGoProofs.Lemmas.C06Inv
+import CedarGoProofs.Lemmas.C06InvPolicy
+import CedarGoProofs.Lemmas.C06InvIgnore
 namespace CedarGo
 
 /-! ## the former counterexamples (regression) -/
@@ -132,24 +148,85 @@ theorem C06_partialE_residual_agrees (σ : String → Value) (envHat : Env) (e e
   rw [h] at this
   exact (Sound.ok_nonlit hl).mp this
 
+/-- The invariant behind the input-level premises: partial evaluation of an expression without ignore markers in its
+    literals (and with distinct record keys) in an environment without ignore markers never answers `errIgnore`, and a
+    residual is again such an expression.  (Induction over `partialE`, on top of `eval_clean`: a value computed from
+    ignore-free inputs is ignore-free.) -/
+theorem C06_no_ignore_met (envHat : Env) (e : Expr) (hE : noIgnoreInput envHat = true)
+    (hl : e.noIgnoreLits = true) (hk : e.recKeysDistinct = true) :
+    (partialE envHat e).notIgn = true ∧
+      ∀ e', partialE envHat e = .ok e' → e'.noIgnoreLits = true ∧ e'.recKeysDistinct = true := by
+  have hi := partialE_inv hE e hl hk
+  refine ⟨notIgn_of_inv hi, ?_⟩
+  intro e' he'
+  rw [he'] at hi
+  exact hi
+
+/-- the model-level premise (`partialDomain`: no ignore marker is met) follows from the input-level one -/
+theorem C06_partialDomain_of_inputs (envHat : Env) (p : Policy) (hE : noIgnoreInput envHat = true)
+    (hl : p.noIgnoreLits = true) (hk : p.recKeysDistinct = true) : partialDomain envHat p = true :=
+  partialDomain_of_inputs hE hl hk
+
 /-- Kept ⇒ the residual is satisfied under the completed environment exactly when the original is.
-    EVERY policy; `partialDomain envHat p` = no ignore marker is met (the property's premise for this clause). -/
-theorem C06_partial_keep_sound_partial (envHat env : Env) (p r : Policy)
-    (hc : Completes envHat env) (hd : partialDomain envHat p = true) (hk : partialPolicy envHat p = some r) :
+    FULL: every policy, store, partial environment without ignore markers, completion of the unknowns. -/
+theorem C06_partial_keep_sound (envHat env : Env) (p r : Policy)
+    (hc : Completes envHat env) (hE : noIgnoreInput envHat = true)
+    (hl : p.noIgnoreLits = true) (hk : p.recKeysDistinct = true)
+    (hkept : partialPolicy envHat p = some r) :
     satisfied r env = satisfied p env := by
   obtain ⟨σ, _, rfl⟩ := hc
-  have := partialPolicy_sound σ envHat p hd
-  rw [hk] at this
+  have := partialPolicy_sound σ envHat p (partialDomain_of_inputs hE hl hk)
+  rw [hkept] at this
   exact this
 
-/-- Dropped ⇒ the original is not satisfied under any completion.  EVERY policy; same premise. -/
-theorem C06_partial_drop_sound_partial (envHat env : Env) (p : Policy)
-    (hc : Completes envHat env) (hd : partialDomain envHat p = true) (hk : partialPolicy envHat p = none) :
+/-- Dropped ⇒ the original is not satisfied under any completion.  FULL, same premises. -/
+theorem C06_partial_drop_sound (envHat env : Env) (p : Policy)
+    (hc : Completes envHat env) (hE : noIgnoreInput envHat = true)
+    (hl : p.noIgnoreLits = true) (hk : p.recKeysDistinct = true)
+    (hdrop : partialPolicy envHat p = none) :
     satisfied p env = false := by
   obtain ⟨σ, _, rfl⟩ := hc
-  have := partialPolicy_sound σ envHat p hd
-  rw [hk] at this
+  have := partialPolicy_sound σ envHat p (partialDomain_of_inputs hE hl hk)
+  rw [hdrop] at this
   exact this
+
+/-- Kept ⇒ the residual FAILS under the completed environment exactly when the original fails (a strengthening: the
+    property text only speaks about satisfaction).  Why it holds although `&&` short-circuits and `PartialPolicy` drops
+    and truncates conditions: a condition is only dropped when it is `true` under every completion; the list is only
+    truncated after a condition that fails under every completion (replaced by `__cedar::partialError`), and everything
+    left of it is kept as a residual that agrees with the original condition in value-or-failure; a scope clause is only
+    replaced by `all` when it evaluates to `true`. -/
+theorem C06_partial_keep_errors_agree (envHat env : Env) (p r : Policy)
+    (hc : Completes envHat env) (hE : noIgnoreInput envHat = true)
+    (hl : p.noIgnoreLits = true) (hk : p.recKeysDistinct = true)
+    (hkept : partialPolicy envHat p = some r) :
+    erroring r env = erroring p env := by
+  obtain ⟨σ, _, rfl⟩ := hc
+  rw [erroring_eq_tv, erroring_eq_tv, partialPolicy_tv σ envHat p r (partialDomain_of_inputs hE hl hk) hkept]
+
+/-- the residual policy satisfies the structural premises again (batch partially evaluates it at the next level) -/
+theorem C06_partial_residual_reusable (envHat : Env) (p r : Policy) (hE : noIgnoreInput envHat = true)
+    (hl : p.noIgnoreLits = true) (hk : p.recKeysDistinct = true) (hkept : partialPolicy envHat p = some r) :
+    r.noIgnoreLits = true ∧ r.recKeysDistinct = true :=
+  partialPolicy_good hE ⟨hl, hk⟩ hkept
+
+/-- why `Policy.noIgnoreLits` is a hypothesis: a policy that spells the ignore marker as a literal,
+    `permit(principal, action, resource) when { {a: __cedar::ignore::""}.a == 1 };`.  No request part is ignored, yet
+    `partial` answers `errIgnore` for the condition, `PartialPolicy` drops it from the permit policy, and the residual
+    (no condition left) is satisfied while the original is not. -/
+def ignLitPolicy : Policy :=
+  whenPolicy (.binop .eq (.access (.record [("a", .lit mkIgnore)]) "a") (.lit (.long 1)))
+example : ignLitPolicy.noIgnoreLits = false ∧ noIgnoreInput ceBase = true ∧
+    (partialPolicy ceBase ignLitPolicy).map (·.conditions.length) = some 0 ∧ satisfied ignLitPolicy ceBase = false := by
+  refine ⟨by decide +kernel, by decide +kernel, by decide +kernel, by decide +kernel⟩
+
+/-- why the STORE is part of `noIgnoreInput`: an attribute that holds the ignore marker.  `principal.x == 1` with
+    `User::"a".x = __cedar::ignore::""` is answered `errIgnore` although no request part is ignored. -/
+def ignStoreEnv : Env :=
+  { ceBase with entities := [(("User", "a"), { parents := [], attrs := [("x", mkIgnore)], tags := [] })] }
+example : noIgnoreInput ignStoreEnv = false ∧
+    (partialE ignStoreEnv (.binop .eq (.access (.var .principal) "x") (.lit (.long 1)))).notIgn = false := by
+  refine ⟨by decide +kernel, by decide +kernel⟩
 
 /-- why `Expr.recKeysDistinct` is a hypothesis: a hand-written record node that repeats a key.  `partial` visits both
     elements and reports the type error of the first; `Eval` evaluates the map built by `ToEval`, where the second entry
@@ -161,27 +238,33 @@ example : dupKeyRecord.recKeysDistinct = false ∧
     (match eval dupKeyRecord ceBase with | .ok (.record [("a", .long 2)]) => true | _ => false) = true := by
   refine ⟨by decide +kernel, by decide +kernel, by decide +kernel⟩
 
-/-- the former counterexamples satisfy the premise and hence the theorems; spelled out for their completions -/
+/-- the former counterexamples satisfy the INPUT-level premises and hence the theorems; spelled out for their completions -/
 theorem C06_former_counterexamples_sound :
-    partialDomain ceStaleEnvHat ceStalePolicy = true ∧ partialDomain ceTaintEnvHat ceTaintPolicy = true ∧
-      partialDomain ceTaintRecEnvHat ceTaintRecPolicy = true ∧ partialDomain ceIsInEnvHat ceIsInPolicy = true ∧
+    (noIgnoreInput ceStaleEnvHat = true ∧ ceStalePolicy.noIgnoreLits = true ∧ ceStalePolicy.recKeysDistinct = true) ∧
+      (noIgnoreInput ceTaintEnvHat = true ∧ ceTaintPolicy.noIgnoreLits = true ∧ ceTaintPolicy.recKeysDistinct = true) ∧
+      (noIgnoreInput ceTaintRecEnvHat = true ∧ ceTaintRecPolicy.noIgnoreLits = true ∧ ceTaintRecPolicy.recKeysDistinct = true) ∧
+      (noIgnoreInput ceIsInEnvHat = true ∧ ceIsInPolicy.noIgnoreLits = true ∧ ceIsInPolicy.recKeysDistinct = true) ∧
       (∀ r, partialPolicy ceStaleEnvHat ceStalePolicy = some r → satisfied r ceStaleEnv = satisfied ceStalePolicy ceStaleEnv) ∧
       (∀ r, partialPolicy ceTaintEnvHat ceTaintPolicy = some r → satisfied r ceTaintEnv = satisfied ceTaintPolicy ceTaintEnv) ∧
       (∀ r, partialPolicy ceIsInEnvHat ceIsInPolicy = some r → satisfied r ceBase = satisfied ceIsInPolicy ceBase) := by
-  have d1 : partialDomain ceStaleEnvHat ceStalePolicy = true := by decide +kernel
-  have d2 : partialDomain ceTaintEnvHat ceTaintPolicy = true := by decide +kernel
-  have d3 : partialDomain ceTaintRecEnvHat ceTaintRecPolicy = true := by decide +kernel
-  have d4 : partialDomain ceIsInEnvHat ceIsInPolicy = true := by decide +kernel
+  have d1 : noIgnoreInput ceStaleEnvHat = true ∧ ceStalePolicy.noIgnoreLits = true ∧ ceStalePolicy.recKeysDistinct = true := by
+    refine ⟨by decide +kernel, by decide +kernel, by decide +kernel⟩
+  have d2 : noIgnoreInput ceTaintEnvHat = true ∧ ceTaintPolicy.noIgnoreLits = true ∧ ceTaintPolicy.recKeysDistinct = true := by
+    refine ⟨by decide +kernel, by decide +kernel, by decide +kernel⟩
+  have d3 : noIgnoreInput ceTaintRecEnvHat = true ∧ ceTaintRecPolicy.noIgnoreLits = true ∧ ceTaintRecPolicy.recKeysDistinct = true := by
+    refine ⟨by decide +kernel, by decide +kernel, by decide +kernel⟩
+  have d4 : noIgnoreInput ceIsInEnvHat = true ∧ ceIsInPolicy.noIgnoreLits = true ∧ ceIsInPolicy.recKeysDistinct = true := by
+    refine ⟨by decide +kernel, by decide +kernel, by decide +kernel⟩
   refine ⟨d1, d2, d3, d4, ?_, ?_, ?_⟩
   · intro r hr
-    exact C06_partial_keep_sound_partial _ _ _ _ ⟨fun _ => .bool true, fun _ => rfl, rfl⟩ d1 hr
+    exact C06_partial_keep_sound _ _ _ _ ⟨fun _ => .bool true, fun _ => rfl, rfl⟩ d1.1 d1.2.1 d1.2.2 hr
   · intro r hr
-    exact C06_partial_keep_sound_partial _ _ _ _ ⟨fun _ => .long 1, fun _ => rfl, rfl⟩ d2 hr
+    exact C06_partial_keep_sound _ _ _ _ ⟨fun _ => .long 1, fun _ => rfl, rfl⟩ d2.1 d2.2.1 d2.2.2 hr
   · intro r hr
-    exact C06_partial_keep_sound_partial _ _ _ _ ⟨fun _ => .entity "User" "a", fun _ => rfl, rfl⟩ d4 hr
+    exact C06_partial_keep_sound _ _ _ _ ⟨fun _ => .entity "User" "a", fun _ => rfl, rfl⟩ d4.1 d4.2.1 d4.2.2 hr
 
 /-- non-vacuity: policies that use unknown positions (an unknown principal in scope and condition, an unknown nested in
-    the context compared, tested with `has`, used in arithmetic and under `&&` / `||` / `if`) satisfy the premise,
+    the context compared, tested with `has`, used in arithmetic and under `&&` / `||` / `if`) satisfy the premises,
     are kept, and have a non-trivial residual. -/
 def nvEnvHat : Env :=
   { ceBase with principal := mkVariable "p", context := .record [("n", mkVariable "x"), ("r", .record [("k", mkVariable "x")])] }
@@ -193,31 +276,49 @@ def nvPolicy : Policy :=
       (false, .ite (.binop .eq (.access (.access (.var .context) "r") "k") (.lit (.long 2))) (.lit (.bool true)) (.lit (.bool false)))] }
 
 theorem C06_domain_nonvacuous :
-    partialDomain nvEnvHat nvPolicy = true ∧ (partialPolicy nvEnvHat nvPolicy).isSome = true := by
-  refine ⟨by decide +kernel, by decide +kernel⟩
+    noIgnoreInput nvEnvHat = true ∧ nvPolicy.noIgnoreLits = true ∧ nvPolicy.recKeysDistinct = true ∧
+      (partialPolicy nvEnvHat nvPolicy).isSome = true := by
+  refine ⟨by decide +kernel, by decide +kernel, by decide +kernel, by decide +kernel⟩
 
 example : Completes nvEnvHat (completeEnv (fun x => if x == "p" then .entity "User" "a" else .long 1) nvEnvHat) :=
   ⟨_, by intro x; split <;> rfl, rfl⟩
 
+/-- error-ness agrees on a concrete case: `context.n + 1 < 3` with `n := "s"` fails in the original and in the residual -/
+example :
+    let env := completeEnv (fun x => if x == "p" then .entity "User" "a" else .str "s") nvEnvHat
+    erroring nvPolicy env = true ∧ (partialPolicy nvEnvHat nvPolicy).map (erroring · env) = some true := by
+  refine ⟨by decide +kernel, by decide +kernel⟩
+
 /-! ## ignored parts -/
 
-/-- `env` completes a partial environment that may have ignored request parts: unknowns are completed by some `σ`,
-    every ignored part gets some value (`ι`) -/
-def CompletesI (envHat env : Env) : Prop :=
-  ∃ (σ : String → Value) (ι : Var → Value), env = completeEnvI σ ι envHat
+/-! `completeEnvI σ ι envHat` (Model/Partial.lean) completes a partial environment that may have ignored request parts:
+    unknowns are completed by `σ`, every ignored part gets the value `ι` gives it (any value). -/
 
-/-- Ignoring only widens what permits allow.  Full statement: for a permit policy, if the original is satisfied for
-    at least one value of the ignored parts then the policy is kept and its residual is satisfied (for ANY value of the
-    ignored parts, in particular the placeholder `__cedar::unknown` that batch uses).
-    Proved here for EVERY permit policy and environment (ignore markers allowed anywhere): kept, and the residual is
-    satisfied under the SAME values of the ignored parts.  Not proved: that the residual's value does not depend on the
-    ignored parts at all (the oracle evaluates the residual under both the witness value and the batch placeholder). -/
-theorem C06_partial_ignore_widens_partial (envHat env : Env) (p : Policy) (hk : p.recKeysDistinct = true)
-    (hc : CompletesI envHat env) (hperm : p.effect = .permit)
-    (hsat : satisfied p env = true) :
-    ∃ r, partialPolicy envHat p = some r ∧ satisfied r env = true := by
-  obtain ⟨σ, ι, rfl⟩ := hc
-  exact partialPolicy_widen σ ι envHat p hk hperm hsat
+/-- The residual of a kept policy does not depend on the values given to the ignored request parts: it is satisfied
+    for one choice exactly when it is for any other, and fails for one exactly when it fails for any other.  EVERY policy
+    (either effect), store and environment; ignore markers may also be nested in the context or the store.
+    The independence is semantic: `partial` answers `errIgnore` whenever evaluation REACHES an ignored part, and
+    `PartialPolicy` then removes the condition (permit) or the policy (forbid); what stays may still mention an ignored
+    part in a branch that is never reached (example below). -/
+theorem C06_partial_ignore_residual_independent (envHat : Env) (p r : Policy) (hk : p.recKeysDistinct = true)
+    (hkept : partialPolicy envHat p = some r) (σ : String → Value) (ι ι' : Var → Value) :
+    satisfied r (completeEnvI σ ι envHat) = satisfied r (completeEnvI σ ι' envHat) ∧
+      erroring r (completeEnvI σ ι envHat) = erroring r (completeEnvI σ ι' envHat) := by
+  have h := partialPolicy_indep σ ι ι' envHat p r hk hkept
+  exact ⟨by rw [satisfied_eq_tv, satisfied_eq_tv, h], by rw [erroring_eq_tv, erroring_eq_tv, h]⟩
+
+/-- Ignoring only widens what permits allow.  FULL: for a permit policy, if the original is satisfied for AT LEAST ONE
+    value of the ignored parts (`ι`) then the policy is kept and its residual is satisfied for EVERY value of the ignored
+    parts (`ι'`; in particular the placeholder `__cedar::unknown` that batch uses).  Every permit policy and environment
+    (ignore markers allowed anywhere). -/
+theorem C06_partial_ignore_widens (envHat : Env) (p : Policy) (hk : p.recKeysDistinct = true)
+    (hperm : p.effect = .permit) (σ : String → Value) (ι : Var → Value)
+    (hsat : satisfied p (completeEnvI σ ι envHat) = true) :
+    ∃ r, partialPolicy envHat p = some r ∧ ∀ ι', satisfied r (completeEnvI σ ι' envHat) = true := by
+  obtain ⟨r, hr, hs⟩ := partialPolicy_widen σ ι envHat p hk hperm hsat
+  refine ⟨r, hr, fun ι' => ?_⟩
+  rw [← (C06_partial_ignore_residual_independent envHat p r hk hr σ ι ι').1]
+  exact hs
 
 /-- non-vacuity: principal ignored, an unknown in the context; the scope clause and the condition on the principal
     disappear, the condition on the unknown stays -/
@@ -229,5 +330,20 @@ def igPolicy : Policy :=
 
 example : (partialPolicy igEnvHat igPolicy).map (fun r => (r.principal.isAll, r.conditions.length)) = some (true, 1) := by
   decide +kernel
+
+/-- the hypothesis of `C06_partial_ignore_widens` is satisfiable: with `principal := User::"a"` (attribute `dept = "x"`
+    in the store) and `x := 1` the original is satisfied; the residual then holds for every other principal as well -/
+def igStore : Entities := [(("User", "a"), { parents := [], attrs := [("dept", .str "x")], tags := [] })]
+example :
+    satisfied igPolicy (completeEnvI (fun _ => .long 1) (fun _ => .entity "User" "a") { igEnvHat with entities := igStore }) = true := by
+  decide +kernel
+
+/-- independence is semantic, not syntactic: `(if true then context.n else principal.x) < 3` with the principal ignored and
+    `context.n` unknown.  `partial` answers `errVariable` for the `if` (the condition is literally `true`, the `then`
+    branch unknown), so the comparison keeps the ORIGINAL operand — which mentions `principal` in the branch that is
+    never evaluated.  The residual is the policy itself; it does not depend on the principal. -/
+def igDeadPolicy : Policy :=
+  whenPolicy (.binop .lt (.ite (.lit (.bool true)) (.access (.var .context) "n") (.access (.var .principal) "x")) (.lit (.long 3)))
+example : partialPolicy igEnvHat igDeadPolicy = some igDeadPolicy := by rfl
 
 end CedarGo
